@@ -293,7 +293,16 @@ func (o *ovsdbClient) connect(ctx context.Context, reconnect bool) error {
 				continue
 			}
 
-			// Restart all monitors; each monitor will handle purging
+			// With several monitors every reply carries the complete
+			// contents of its tables: empty the cache once, before the
+			// first monitor is restarted, not once per monitor
+			if len(db.monitors) > 1 {
+				db.cacheMutex.Lock()
+				db.cache.Purge(db.model)
+				db.cacheMutex.Unlock()
+			}
+
+			// Restart all monitors; a single monitor will handle purging
 			// the cache if necessary
 			for id, request := range db.monitors {
 				err := o.monitor(ctx, MonitorCookie{DatabaseName: dbName, ID: id}, true, request)
@@ -1035,8 +1044,9 @@ func (o *ovsdbClient) monitor(ctx context.Context, cookie MonitorCookie, reconne
 	// MonitorCondSince one, whose LastTransactionID was known to the
 	// server. In this case the reply contains only updates to the existing
 	// cache data, while otherwise it includes complete DB data so we must
-	// purge to get rid of old rows.
-	if reconnecting && (len(db.monitors) > 1 || !lastTransactionFound) {
+	// purge to get rid of old rows. With several monitors the cache has
+	// been purged once already, before the first one was restarted.
+	if reconnecting && len(db.monitors) == 1 && !lastTransactionFound {
 		db.cache.Purge(db.model)
 	}
 
